@@ -67,7 +67,10 @@ let handle_proto (toks : string list) : string =
     if refused then fingerprint !clients.(m) "Err" None else begin
       let e = mk_event ev 1 facts a.(3) (i 4) in
       Hashtbl.replace events ev e;
-      !clients.(m) <- E.sent !clients.(m) e;
+      (* a sender that pre-set another message's id files its own copy under that id; receivers recompute the id *)
+      (match (try Some (L.assoc "sender_key" facts) with Not_found -> None) with
+        | Some k -> !clients.(m) <- E.sent_as !clients.(m) e (n_of_int (int_of_string k))
+        | None -> !clients.(m) <- E.sent !clients.(m) e);
       fingerprint !clients.(m) "ok" (Some ev) end
   | "LEAVE" ->
     let m = i 1 and ev = i 2 in
@@ -76,6 +79,9 @@ let handle_proto (toks : string list) : string =
       Hashtbl.replace events ev e;
       !clients.(m) <- E.leave_created !clients.(m) e;
       fingerprint !clients.(m) "ok" (Some ev) end
+  | "ADV" ->
+    if refused then "ok" else begin
+      let ev = i 4 in Hashtbl.replace events ev (mk_event ev 0 facts a.(5) 0); "ok" end
   | "BAD" ->   (* declaration of a hostile event: PR BAD <ev> <ts> <cls> | bad=<model class> *)
     let ev = i 1 in Hashtbl.replace events ev (mk_event ev 3 facts a.(2) 0); "ok"
   | "DELIVER" ->
